@@ -339,7 +339,29 @@ def wmc_homomorphism(prog):
     te = cl.terms
     arms = gamma_arms(te, te.ret)
     if arms is None:
-        return out + [inst("DP", cl.npath + ":match", UNDECIDED, cl, None, "not a match on DDNNF")]
+        # arms that are split further (`Lit(l, true) => .., Lit(l, false) => ..`) flatten into an ungated join: rebuild the
+        # per-variant result from the alternatives and their facts
+        from .fd import alts as _alts, key_of as _key
+        adt = prog.adts.get("repr::ddnnf::DDNNF")
+        names = [v["name"] for v in adt["variants"]] if adt else []
+        groups = {}
+        for leaf, facts in _alts(te, te.ret):
+            vi, sub = None, None
+            for c, v in facts:
+                if _key(c) == "discr(arg2)" and str(v).isdigit() and int(v) < len(names):
+                    vi = names[int(v)]
+                elif isinstance(c, tuple) and c and c[0] == "field" and "arg2 as" in _key(c) and v in ("0", "1", ("not", ("0",)), ("not", ("1",))):
+                    sub = (c, "0" if v in ("0", ("not", ("1",))) else ("not", ("0",)))
+            if vi is not None:
+                groups.setdefault(vi, []).append((sub, leaf))
+        arms = {}
+        for vi, lst in groups.items():
+            if len(lst) == 1:
+                arms[vi] = lst[0][1]
+            elif all(s_ is not None for s_, _ in lst) and len({_key(s_[0]) for s_, _ in lst}) == 1:
+                arms[vi] = ("gamma", lst[0][0][0], tuple((s_[1], leaf) for s_, leaf in lst))
+        if len(arms) < 3:
+            return out + [inst("DP", cl.npath + ":match", UNDECIDED, cl, None, "not a match on DDNNF")]
     U = lambda v, i: VF(2, v, i)
     exp = {
         "Or": ("bin", "Add", U("Or", 0), U("Or", 1)),
